@@ -365,6 +365,8 @@ def sum_(ts):
         flat.extend(t[1] if t[0] == 'sum' else [t])
     if not flat:
         return ('zero',)
+    if len(flat) == 1:
+        return flat[0]
     return ('sum', tuple(sorted(flat, key=repr)))
 
 
@@ -401,6 +403,10 @@ def point(p, env):
 def same_content(a, b):
     if a is None or b is None:
         return None
+    if a[0] in ('sum', 'prod') and len(a[1]) == 1:
+        a = a[1][0]
+    if b[0] in ('sum', 'prod') and len(b[1]) == 1:
+        b = b[1][0]
     if a[0] != b[0]:
         return False
     if a[0] == 'num':
